@@ -3,6 +3,7 @@ import Slock.Proofs.TextChunk
 import Slock.Proofs.TextHandlers
 import Slock.Proofs.TextValue
 import Slock.Gen.TextHandlers
+import Slock.Gen.DbsIndex
 /-!
 # C13 (text part) — no argument list crashes a text command converter
 
@@ -218,6 +219,25 @@ example : ¬ (Slock.TextH.Read.mk "old SCAN" 0 "i+1" 1 1 [.lenGe 2, .iLtLen]).sa
 
 /-- both registries are seen by the extractor (a renamed table would empty the list) -/
 theorem handlers_registry_seen : 40 ≤ Slock.Gen.textHandlerRegistry.length := by decide
+
+/-! ## index expressions into the database table -/
+
+/-- Every `….dbs[e]` in the server package is in range: the table has `dbsTableSize` = 256 slots (read off NewSLock),
+and each index expression is either of type uint8, the key of a `range` over the table, or — the protobuf `db_id` of the
+CALL handlers LIST_LOCK / LIST_LOCKED / LIST_WAIT, a uint32 — dominated by `if e >= uint32(len(….dbs)) { return … }`.
+The table is regenerated from /repo/server on every run; an unguarded wide index is emitted as `.unguarded` and this
+theorem stops checking.
+(Before the repair `fix: the CALL handlers LIST_LOCK / LIST_LOCKED / LIST_WAIT answer UNKNOWN_DB for a db id outside the
+database table` the three `request.DbId` reads were `.unguarded`.) -/
+theorem dbs_index_guarded : ∀ r ∈ Slock.Gen.dbsReads, r.safe Slock.Gen.dbsTableSize :=
+  Slock.TextH.dbs_all_safe _ _ (by decide)
+
+/-- an unguarded wide index is (correctly) rejected, and is unsafe: index 256 into 256 slots -/
+example : (Slock.TextH.DbsRead.mk "old LIST_LOCK" "" 0 "request.DbId" .unguarded).check 256 = false := by decide
+example : ¬ (Slock.TextH.DbsRead.mk "old LIST_LOCK" "" 0 "request.DbId" .unguarded).safe 256 := by
+  intro h
+  have := h 256 trivial
+  omega
 
 /-! ## the value readers behind GET / STRLEN / GETSET / LOCK replies / KEYS / SCAN -/
 
